@@ -78,7 +78,11 @@ func GenData(r *rand.Rand, w Window, o DataOpt) []store.Series {
 		name := metrics[r.Intn(len(metrics))]
 		l = append(l, "__name__", name)
 		for _, k := range LabelKeys {
-			if r.Intn(10) < 6 {
+			p := 6
+			if k == "Z" {
+				p = 2
+			}
+			if r.Intn(10) < p {
 				l = append(l, k, LabelVals[r.Intn(len(LabelVals))])
 			}
 		}
